@@ -715,7 +715,7 @@ func execSignedData(f []string) vlib.Res {
 	if low, _, _ := lowerWireName(sw); !bytes.Equal(low, signerWire) {
 		return vlib.Res{Impl: "bad-op"}
 	}
-	crd := splitList(f[13], ",")
+	crd := strings.Split(f[13], ",") // "-" is one empty RDATA
 	if len(crd) != len(ws) {
 		return vlib.Res{Impl: "bad-op"}
 	}
